@@ -840,7 +840,7 @@ Definition wM : file := File 0 [1%N] [] [[1%N; 7%N]] [].
 Definition wM2 : file := File 1 [1%N] [] [[1%N; 8%N]] [].
 Definition race_threads : list (list op) := [[OImport wM2]; [OLookup [1%N; 7%N]]].
 Definition race_init : table := fst (import wM []).
-Definition race_sched : list nat := repeat 1%nat 8 ++ repeat 0%nat 12.
+Definition race_sched : list nat := repeat 1%nat 6 ++ repeat 0%nat 10.
 
 Lemma lock_discipline_refuted_lemma :
   exists T opss sched t th,
@@ -849,7 +849,14 @@ Lemma lock_discipline_refuted_lemma :
     next_access (th_prog th) = Some ([1%N], FSymbols, false) /\ th_held th = [].
 Proof.
   exists race_init, race_threads, race_sched, 1%nat.
-  eexists. split; [vm_compute; reflexivity|]. repeat split.
+  assert (H : match nth_error (cs_threads (run_sched (init_state race_init (map ops_prog race_threads)) race_sched)) 1 with
+              | Some th => access_ok th = false /\
+                           next_access (th_prog th) = Some ([1%N], FSymbols, false) /\ th_held th = []
+              | None => False
+              end) by (vm_compute; repeat split).
+  destruct (nth_error (cs_threads (run_sched (init_state race_init (map ops_prog race_threads)) race_sched)) 1) as [th|];
+    [|contradiction].
+  exists th. split; [reflexivity|exact H].
 Qed.
 
 Lemma model_race_witness_lemma :
